@@ -43,7 +43,7 @@ def shards(tier, seed):
 
 def universe(seed, uid):
     rng = core.rng_for(seed, PROP, 'uni%d' % uid)
-    o = gen.Opts(max_types=4, namespaces=3, choice_groups=True, defaults=True, sub_names=True, seq_min=True, self_refs=True)
+    o = gen.Opts(max_types=4, namespaces=3, choice_groups=True, defaults=True, sub_names=True, seq_min=True, self_refs=True, cross_ns_inheritance=True)
     return gen.rand_universe(rng, o, uid=uid)
 
 
